@@ -409,7 +409,7 @@ def bfs(kind, depth, first_actions, part, embeddings=1, embed_all=False):
                     try:
                         part._alone = None
                         k = step(w, action, part, kind, path)
-                        if k is not None and (d == 0 or embed_all):
+                        if k is not None and (d == 0 or (embed_all and d <= 1)):
                             for how in EMBEDDINGS[:embeddings]:
                                 with W.World(db_from=dbfile) as w2:
                                     embed(w2, action, part, kind, path, how)
@@ -472,8 +472,8 @@ def run(tier, seed):
                     "every other object and GetAttributes agreement; batch_embeddings = the same "
                     "action re-run on a clone of the same state inside [action, Create] (Continue) "
                     "and [Create, action] batches, required to answer and to leave objects 1 and 2 "
-                    "exactly as the stand-alone request did (quick: from the root state; thorough: "
-                    "from every reached state)",
+                    "exactly as the stand-alone request did (quick: from the root state; thorough: from every "
+                    "state within one step of it)",
     ), assumptions=[
         "a call that addresses no existing instance (index out of range or negative, current value "
         "not present) must fail; the 2.0 reference form of DeleteAttribute removes all instances",
